@@ -10,7 +10,7 @@ pub const RULE: &str = "cases = accepted connected graphs (G-phys), structured p
 
 pub fn gen_case(t: &mut Tape, tier: Tier) -> Option<Phys> {
     let mo = if t.chance(0.4) { 1.0 / 64.0 } else { 0.15 };
-    gen::gen_phys(t, &PhysOpts { max_e: tier.pick(8, 9), max_l: 5, min_omega: mo, dmax: 6, max_ops: 2, profile: gen::PointProfile { u_w: [0.45, 0.45, 0.05, 0.05], xi_w: [0.3, 0.15, 0.45, 0.1], lambda_tail: 0.05, bm_extreme: 0.05 } })
+    gen::gen_phys(t, &PhysOpts { max_e: tier.pick(8, 9), max_l: 8, min_omega: mo, dmax: 6, max_ops: 2, profile: gen::PointProfile { u_w: [0.45, 0.45, 0.05, 0.05], xi_w: [0.3, 0.15, 0.45, 0.1], lambda_tail: 0.05, bm_extreme: 0.05 } })
 }
 
 pub fn assert_c07(c: &Phys, ev: &Eval, ctx: &mut Ctx) -> Result<(), Failure> {
